@@ -31,6 +31,11 @@ def step (d : DState) (ws : List String) : DState × String :=
         s!"{a}={r.bal}/{if r.live then 1 else 0}"
       (d, " ".intercalate (old ++ new))
     | _, _ => (d, "bad-op")
+  | ["tdisc", liveSha, live, noPen, pen, dv, sha, reward, sig, ts] =>
+    match [liveSha, live, noPen, pen, dv, reward, sig, ts].mapM String.toNat? with
+    | some [liveSha, live, noPen, pen, dv, reward, sig, ts] =>
+      (d, toString (Reward.timeDiscount liveSha live noPen pen dv (sha == "1") reward sig ts))
+    | _ => (d, "bad-op")
   | "split" :: r :: es => match r.toNat?, es.mapM String.toNat? with
     | some r, some es =>
       let vs := Reward.split r es
